@@ -584,6 +584,10 @@ def streams(ctx):
     for sp in list(pytoken.EXACT_TOKEN_TYPES) + list(keyword.kwlist) + ["match", "case", "type", "_"]:
         for t in (sp, f"a{sp}b", f"a {sp} b", f"({sp}", f"{sp}=", f"{sp}{sp}", f"1{sp}1"):
             reqs += _both(t)
+    # integer literals around machine-word boundaries in every base (a token's value is the value of its digits)
+    rb = lc.radix_boundaries()
+    for i in range(0, len(rb), 8):
+        reqs += _both(" ".join(rb[i:i + 8]))
     plain = [r for r in reqs if not r.startswith("lexf ")]
     full = [r for r in reqs if not r.startswith("lex ")]
     out.append(Stream("corpus [default]", plain, kind="corpus", harness=lc.PLAIN_HARNESS))
